@@ -341,12 +341,13 @@ def choosePerms (cfg : Cfg) (fs : FS) : Nat × Bool :=
     | none => (RW_PERMS, false)
 
 /-- the events of a save in which no call fails:
-    `setup` (`unlink` of a stale part file when `overwrite_part`, exclusive creation, `chmod`),
+    `setup` (`unlink` of a stale part file when `overwrite_part`, exclusive creation, `fdopen`
+    - no effect on the file system: `noop` -, `chmod`),
     the body's writes, `__exit__` (`flush`, `fsync`, `close`, then either the cleanup `unlink`
     when the body raised, or the publication by `rename` / `link`+`unlink`). -/
 def saverTrace (cfg : Cfg) (fs : FS) (body : Body) : List Ev :=
   (if cfg.overwritePart && fs.dir.part.isSome then [Ev.unlinkPart] else []) ++
-  [Ev.openPart true true (choosePerms cfg fs).1] ++
+  [Ev.openPart true true (choosePerms cfg fs).1, Ev.noop] ++
   (if (choosePerms cfg fs).2 then [Ev.chmodPart (choosePerms cfg fs).1] else []) ++
   body.writes.map (fun w => Ev.write w.1 w.2) ++
   [Ev.flush, Ev.fsync, Ev.close] ++
